@@ -65,7 +65,24 @@ def specs(draw, tier):
     for i in range(1, nframes):
         if times[i] <= times[i - 1]:
             times[i] = times[i - 1] + 0.5
+    tk = draw(st.sampled_from(["increasing", "increasing", "increasing", "repeat", "restart", "fine-after-coarse", "through-zero"]))
+    if tk == "repeat" and nframes >= 2:  # a continued run stores its first frame again: the same time twice
+        i = draw(st.integers(1, nframes - 1))
+        times[i] = times[i - 1]
+    elif tk == "restart" and nframes >= 2:  # the tracker / storage is reused for a second run that starts earlier again
+        i = draw(st.integers(1, nframes - 1))
+        times[i:] = [gen.r6(times[0] + (x - times[i])) for x in times[i:]]
+    elif tk == "fine-after-coarse" and nframes >= 3:  # output interval shrinks by many orders of magnitude
+        i = draw(st.integers(2, nframes - 1))
+        for j in range(i, nframes):
+            times[j] = times[j - 1] + 1e-7 * (times[1] - times[0])
+    elif tk == "through-zero" and nframes >= 2:
+        i = draw(st.integers(1, nframes - 1))
+        shift = times[i]
+        times = [gen.r6(x - shift) for x in times]
+        times[i] = 0.0
     spec["times"] = times
+    spec["time_kind"] = tk
     if mode == "direct":
         spec["settings"] = draw(settings(dim))
         spec["source"] = draw(st.sampled_from([None, None, 0, 1, "callable"]))
@@ -92,7 +109,7 @@ class C14(Property):
     id = "C14"
     rule = (
         "Histories of fields fed to the trackers. Direct drive: 0-8 (thorough 12) frames of generated fields (noise, blobs, binary, "
-        "smooth, constant = droplet-free) on any grid family with increasing irregular times are passed to DropletTracker."
+        "smooth, constant = droplet-free) on any grid family with irregular times (increasing; with a repeated stamp; restarting at an earlier time; a spacing that shrinks by seven orders of magnitude; passing through exactly 0) are passed to DropletTracker."
         "initialize/handle/finalize with drawn settings (threshold rule or number, minimal_radius, refine, refine_args, "
         "perturbation_modes, source None / index into a FieldCollection / callable, optionally an existing time course with frames, "
         "optionally a file) and in parallel appended to a MemoryStorage. Solver runs: DiffusionPDE / AllenCahnPDE / CahnHilliardPDE "
